@@ -45,6 +45,8 @@ class ZarrCollection(SyncedCollection):
 
     _backend = __name__  # type: ignore
 
+    _validators = (require_string_key,)
+
     def __init__(self, group=None, name=None, codec=None, *args, **kwargs):
         if not ZARR:
             raise RuntimeError(
@@ -161,8 +163,6 @@ class ZarrDict(ZarrCollection, SyncedDict):
     representation, and if necessary construct a new :class:`ZarrDict` instance.
 
     """
-
-    _validators = (require_string_key,)
 
     def __init__(self, group=None, name=None, data=None, parent=None, *args, **kwargs):
         super().__init__(
